@@ -60,6 +60,8 @@ fn floors(_t: Tier) -> Vec<(&'static str, u64)> {
         ("bucket_batched", 1_500),
         ("bucket_overlap", 1_500),
         ("bucket_remainder", 1_500),
+        ("frames_after_the_first", 2_000),
+        ("frames_built_in_a_buffer_an_earlier_frame_used", 300),
     ]
 }
 
@@ -213,6 +215,42 @@ pub fn run_case(ctx: &mut Ctx, fam: &str, k: u64, r: &mut Rng) {
                 }
                 Err(msg) => ctx.violation(&format!("C06|{}|same-image-other-filters|panic:{}", cell, panic_class(&msg)), format!("second conv on the same image panicked: {}", msg)),
             }
+        }
+    }
+    // a stream of frames: the image is dropped and the next one of the same geometry is built (allocators hand the
+    // freed buffer out again), convolved with the same filters. Nothing of an earlier frame may show in a later one.
+    if fam != "nonfinite" && fam != "grid" && r.chance(1, 3) {
+        let nframes = r.range(2, 4);
+        let frames: Vec<(Vec<f64>, T<f64>)> = (0..nframes)
+            .map(|_| {
+                let v: Vec<f64> = if frac { (0..numel(&di)).map(|_| 0.25 * r.int(-9, 9)).collect() } else { rand_ints(r, numel(&di), -9, 9) };
+                let w = T::conv(&T::from_f64(&di, &v), &tf_, sr, sc).expect("same geometry");
+                (v, w)
+            })
+            .collect();
+        let filt = if r.chance(1, 2) { fil.clone().tracked() } else { fil.clone() };
+        let mut seen = vec![img.values().as_ptr() as usize];
+        drop(img);
+        for (j, (v, want)) in frames.iter().enumerate() {
+            let im = arr(&di, v);
+            let addr = im.values().as_ptr() as usize;
+            if seen.contains(&addr) {
+                ctx.count("frames_built_in_a_buffer_an_earlier_frame_used", 1);
+            }
+            seen.push(addr);
+            ctx.count("frames_after_the_first", 1);
+            match guard(|| {
+                let r = im.conv(&filt, (sr, sc));
+                (r.dimensions().to_vec(), vals(&r))
+            }) {
+                Ok((gd, gv)) => {
+                    if let Err((kind, detail)) = compare(&gd, &gv, want, Rule::Exact) {
+                        ctx.violation(&format!("C06|{}|frame-stream|wrong-{}", cell, kind), format!("frame {} of a stream of images {:?} convolved with the same filters {:?} /({},{}), earlier frames dropped: {}\nimage={} filters={}", j + 2, di, df, sr, sc, detail, short(v), short(&vf)));
+                    }
+                }
+                Err(msg) => ctx.violation(&format!("C06|{}|frame-stream|panic:{}", cell, panic_class(&msg)), format!("frame {} of a stream panicked: {}", j + 2, msg)),
+            }
+            drop(im);
         }
     }
 }
